@@ -424,12 +424,27 @@ class World:
         if n.inst is None:
             self.skipped += 1
             return self.log(step, "skip")
-        n.inst = None
+        self._drop_instance(n)
         n.crashes += 1
         if n.slot is None:
             n.lost = True
         n.calls = []
         return self.log(step, "down", lost=n.lost)
+
+    def _drop_instance(self, n):
+        addrs = None
+        if self.ephemeral and n.impl == "real" and n.inst is not None:
+            P = getattr(n.inst, "params", None)
+            if P is not None and worlds.is_ephemeral(P):
+                addrs = worlds.addresses_of(P)
+            del P
+        n.inst = None
+        if addrs is not None:
+            # the session's private parameter set died with it: its address (and those of the elements
+            # it owned) is free again, and a set built later may well receive it.  Make that the rule
+            # rather than allocator luck.
+            if worlds.reserve_dead_addresses(*addrs):
+                self.probe("ephemeral-params-address-reused")
 
     def op_recover(self, step):
         n = self.nodes[step["n"]]
